@@ -200,7 +200,142 @@ def read_fixes(path: Path | None = None, lenient: bool = False) -> tuple[dict, l
     return fixes, table
 
 
-def render(found: dict, fixes: dict | None = None, table: list | None = None) -> str:
+# ---------------------------------------------------------------- operand requirements of every Expr*.iterate, and _precedence
+# (class, text of the yielded thing, ordinal among the calls with that text) -> name of the generated Coq constant
+SLOTS = {
+    ("ExprAttribute", "values", 0): "rq_Attribute_values",
+    ("ExprCall", "self.function", 0): "rq_Call_function", ("ExprCall", "self.arguments[0]", 0): "rq_Call_sole_genexp",
+    ("ExprCall", "self.arguments", 0): "rq_Call_arguments",
+    ("ExprCompare", "self.left", 0): "rq_Compare_left",
+    ("ExprCompare", "zip_longest(self.operators, [], self.comparators, fillvalue=' ')", 0): "rq_Compare_comparators",
+    ("ExprComprehension", "self.target", 0): "rq_Comprehension_target", ("ExprComprehension", "self.iterable", 0): "rq_Comprehension_iterable",
+    ("ExprComprehension", "self.conditions", 0): "rq_Comprehension_conditions",
+    ("ExprDict", "value", 0): "rq_Dict_unpacked", ("ExprDict", "key", 0): "rq_Dict_key", ("ExprDict", "value", 1): "rq_Dict_value",
+    ("ExprDictComp", "self.key", 0): "rq_DictComp_key", ("ExprDictComp", "self.value", 0): "rq_DictComp_value",
+    ("ExprDictComp", "self.generators", 0): "rq_DictComp_generators",
+    ("ExprExtSlice", "self.dims", 0): None,      # never instantiated by the builders: not modelled
+    ("ExprFormatted", "self.value", 0): "rq_Formatted_value", ("ExprFormatted", "self.format_spec.values", 0): "rq_Formatted_spec_values",
+    ("ExprFormatted", "self.format_spec", 0): "rq_Formatted_spec",
+    ("ExprGeneratorExp", "self.element", 0): "rq_GeneratorExp_element", ("ExprGeneratorExp", "self.generators", 0): "rq_GeneratorExp_generators",
+    ("ExprIfExp", "self.body", 0): "rq_IfExp_body", ("ExprIfExp", "self.test", 0): "rq_IfExp_test", ("ExprIfExp", "self.orelse", 0): "rq_IfExp_orelse",
+    ("ExprJoinedStr", "self.values", 0): "rq_JoinedStr_values",
+    ("ExprKeyword", "self.value", 0): "rq_Keyword_value", ("ExprVarPositional", "self.value", 0): "rq_VarPositional_value",
+    ("ExprVarKeyword", "self.value", 0): "rq_VarKeyword_value",
+    ("ExprLambda", "parameter.default", 0): "rq_Lambda_default", ("ExprLambda", "self.body", 0): "rq_Lambda_body",
+    ("ExprList", "self.elements", 0): "rq_List_elements",
+    ("ExprListComp", "self.element", 0): "rq_ListComp_element", ("ExprListComp", "self.generators", 0): "rq_ListComp_generators",
+    ("ExprNamedExpr", "self.target", 0): "rq_NamedExpr_target", ("ExprNamedExpr", "self.value", 0): "rq_NamedExpr_value",
+    ("ExprSet", "self.elements", 0): "rq_Set_elements",
+    ("ExprSetComp", "self.element", 0): "rq_SetComp_element", ("ExprSetComp", "self.generators", 0): "rq_SetComp_generators",
+    ("ExprSlice", "self.lower", 0): "rq_Slice_lower", ("ExprSlice", "self.upper", 0): "rq_Slice_upper", ("ExprSlice", "self.step", 0): "rq_Slice_step",
+    ("ExprSubscript", "self.left", 0): "rq_Subscript_left", ("ExprSubscript", "self.slice", 0): "rq_Subscript_slice",
+    ("ExprTuple", "self.elements", 0): "rq_Tuple_elements",
+    ("ExprYield", "self.value", 0): "rq_Yield_value", ("ExprYieldFrom", "self.value", 0): "rq_YieldFrom_value",
+}
+# operand requirements that are computed from the node's own level: pinned text -> (constant, value)
+RELATIVE = {("ExprBoolOp", "self.values", 0): ("_Precedence(_precedence(self) + 1)", "rq_BoolOp_values_above_own", 1),
+            ("ExprUnaryOp", "self.value", 0): ("_precedence(self)", "rq_UnaryOp_value_above_own", 0)}
+BINOP_BODY = ["precedence = _precedence(self)",
+              "if self.operator == '**':\n    left, right = (_Precedence.{L}, _Precedence.{R})\nelse:\n    left, right = (precedence, _Precedence(min(precedence + 1, _Precedence.ATOM)))",
+              "yield from _yield(self.left, flat=flat, precedence=left)", "yield f' {self.operator} '",
+              "yield from _yield(self.right, flat=flat, precedence=right)"]
+
+
+def _level(node, level) -> int:
+    if node is None:
+        return level["NONE"]
+    if isinstance(node, ast.Attribute) and isinstance(node.value, ast.Name) and node.value.id == "_Precedence" and node.attr in level:
+        return level[node.attr]
+    raise TranslatorError("precedence argument not understood: " + ast.unparse(node))
+
+
+def read_requirements(path: Path | None = None) -> list:
+    """-> [(coq constant, number or string, comment)] : the precedence every Expr*.iterate requires of each operand it yields,
+    and what _precedence answers for each class. Every call `_yield(x, precedence=P)` / `_join(xs, sep, precedence=P)` of every
+    iterate method must be one of the known slots (a new, missing or renamed one = TranslatorError), P must be a member of
+    _Precedence (absent = NONE) or, for ExprBoolOp / ExprUnaryOp / ExprBinOp, the pinned expression over the node's own level."""
+    tree = ast.parse((path or (REPO / "src/_griffe/expressions.py")).read_text())
+    level = dict(PREC_LEVELS)
+    out, seen = [], set()
+    for cls in [n for n in tree.body if isinstance(n, ast.ClassDef) and n.name.startswith("Expr")]:
+        for m in [m for m in cls.body if isinstance(m, ast.FunctionDef) and m.name == "iterate"]:
+            if cls.name == "ExprBinOp":
+                body = [ast.unparse(st) for st in _strip_doc(m)]
+                got = None
+                for L in level:
+                    for R in level:
+                        if body == [b.replace("{L}", L).replace("{R}", R) if "{L}" in b else b for b in BINOP_BODY]:
+                            got = (L, R)
+                if got is None:
+                    raise TranslatorError("ExprBinOp.iterate is no longer `own level on the left, own level + 1 on the right, two fixed levels for **`: " + " | ".join(body)[:300])
+                out.append(("rq_BinOp_pow_left", level[got[0]], "left operand of **"))
+                out.append(("rq_BinOp_pow_right", level[got[1]], "right operand of **"))
+                continue
+            calls = sorted([n for n in ast.walk(m) if isinstance(n, ast.Call) and isinstance(n.func, ast.Name) and n.func.id in ("_yield", "_join")],
+                           key=lambda n: (n.lineno, n.col_offset))
+            count: dict = {}
+            for c in calls:
+                arg = ast.unparse(c.args[0])
+                if c.func.id == "_join" and len(c.args) == 2 and isinstance(c.args[1], ast.Constant) and arg in ("values", "self.values", "self.elements") and False:
+                    pass
+                key = (cls.name, arg, count.get(arg, 0))
+                count[arg] = count.get(arg, 0) + 1
+                prec = next((k.value for k in c.keywords if k.arg == "precedence"), None)
+                if key in RELATIVE:
+                    text, name, val = RELATIVE[key]
+                    if prec is None or ast.unparse(prec) != text:
+                        raise TranslatorError(f"{cls.name}.iterate: requirement of {arg} is no longer `{text}`")
+                    out.append((name, val, f"{cls.name}: {arg} at own level + {val}"))
+                elif key in SLOTS:
+                    if SLOTS[key] is not None:
+                        out.append((SLOTS[key], _level(prec, level), f"{cls.name}: {arg}"))
+                else:
+                    raise TranslatorError(f"{cls.name}.iterate yields an operand the model does not know: {arg} (#{key[2]})")
+                seen.add(key)
+    missing = [k for k in list(SLOTS) + list(RELATIVE) if k not in seen]
+    if missing:
+        raise TranslatorError(f"operand slots no longer found in the iterate methods: {missing[:4]}")
+    # _precedence
+    fn = [n for n in tree.body if isinstance(n, ast.FunctionDef) and n.name == "_precedence"]
+    if len(fn) != 1:
+        raise TranslatorError("_precedence not found")
+    body = _strip_doc(fn[0])
+    want = {"ExprBinOp": "binop", "ExprBoolOp": "boolop", "ExprUnaryOp": "unaryop", "ExprCompare": "pr_Compare", "ExprIfExp": "pr_IfExp",
+            "ExprLambda": "pr_Lambda", "ExprYield": "pr_Yield", "ExprYieldFrom": "pr_YieldFrom"}
+    got = {}
+    for st in body[:-1]:
+        t = st.test if isinstance(st, ast.If) else None
+        if not (t is not None and not st.orelse and len(st.body) == 1 and isinstance(st.body[0], ast.Return) and isinstance(t, ast.Call)
+                and isinstance(t.func, ast.Name) and t.func.id == "isinstance" and ast.unparse(t.args[0]) == "element"):
+            raise TranslatorError("_precedence: statement not understood: " + ast.unparse(st)[:120])
+        names = [e.id for e in (t.args[1].elts if isinstance(t.args[1], ast.Tuple) else [t.args[1]])]
+        for nme in names:
+            if nme in got or nme not in want:
+                raise TranslatorError(f"_precedence: unexpected class {nme}")
+            got[nme] = st.body[0].value
+    if set(got) != set(want) or not isinstance(body[-1], ast.Return):
+        raise TranslatorError(f"_precedence: classes {sorted(got)} instead of {sorted(want)}")
+    out.append(("pr_default", _level(body[-1].value, level), "_precedence: everything else"))
+    for cname, kind in want.items():
+        v = got[cname]
+        if kind == "binop":
+            if not (isinstance(v, ast.Call) and ast.unparse(v.func) == "_binary_op_precedence.get" and ast.unparse(v.args[0]) == "element.operator"):
+                raise TranslatorError("_precedence(ExprBinOp) is no longer a lookup in _binary_op_precedence")
+            out.append(("pr_binop_default", _level(v.args[1], level), "_precedence(ExprBinOp): operator not in the table"))
+        elif kind in ("boolop", "unaryop"):
+            if not (isinstance(v, ast.IfExp) and isinstance(v.test, ast.Compare) and ast.unparse(v.test.left) == "element.operator"
+                    and len(v.test.ops) == 1 and isinstance(v.test.ops[0], ast.Eq) and isinstance(v.test.comparators[0], ast.Constant)):
+                raise TranslatorError(f"_precedence({cname}) not understood: " + ast.unparse(v))
+            a, b2 = ("pr_BoolOp_if", "pr_BoolOp_else") if kind == "boolop" else ("pr_UnaryOp_if", "pr_UnaryOp_else")
+            out.append((a, _level(v.body, level), f"_precedence({cname}) when the operator is ..."))
+            out.append((a + "_operator", v.test.comparators[0].value, "... this one"))
+            out.append((b2, _level(v.orelse, level), f"_precedence({cname}) otherwise"))
+        else:
+            out.append((kind, _level(v, level), f"_precedence({cname})"))
+    return out
+
+
+def render(found: dict, fixes: dict | None = None, table: list | None = None, reqs: list | None = None) -> str:
     out = ["(* GENERATED by harness/translate/c03_tables.py from /repo/src/_griffe/expressions.py -- do not edit *)",
            "From Coq Require Import String List.", "From Verif Require Import Model.C03_ops.", "Import ListNotations.", "Open Scope string_scope.", ""]
     for pyname, (coqname, ty, prefix, classes) in TABLES.items():
@@ -228,6 +363,14 @@ def render(found: dict, fixes: dict | None = None, table: list | None = None) ->
     out.append("Definition gen_binop_prec : list (string * nat) :=")
     out.append("  [" + "; ".join(f"({_coq_string(o)}, {lv})" for o, lv in (table or [])) + "].")
     out.append("")
+    out.append("(* the precedence each Expr*.iterate requires of the operands it yields (keyword `precedence=` of its _yield / _join calls),")
+    out.append("   and what _precedence answers for each class: the model's iterate / gprec are defined over these constants *)")
+    for name, val, comment in (reqs or []):
+        if isinstance(val, str):
+            out.append(f"Definition {name} : string := {_coq_string(val)}.   (* {comment} *)")
+        else:
+            out.append(f"Definition {name} : nat := {val}.   (* {comment} *)")
+    out.append("")
     return "\n".join(out)
 
 
@@ -238,7 +381,7 @@ def translate(ctx=None, required=()) -> Path:
         # the generated tables keep describing the repaired printer: what the tree now does wrong is then reported as a
         # violation with a failing input instead of being followed by the model
         raise TranslatorError(f"repairs that landed are no longer detected in expressions.py: {missing}")
-    text = render(read_tables(), fixes, table)
+    text = render(read_tables(), fixes, table, read_requirements())
     p = VERIF / "coq/Gen/C03_tables.v"
     if not p.exists() or p.read_text() != text:
         p.write_text(text)
